@@ -11,7 +11,11 @@ from . import sampler_model as M
 from . import sampler_contracts as SC
 from .sampler_model import SQ
 
-OBLIGATION_FLOOR = 20
+OBLIGATION_FLOOR = 2000
+UNITS = ['shell_association', 'sample_shell', 'update_shell_info', 'add_bound',
+         'add_samples', 'setter', 'run[verbose=False,file=False]',
+         'run[verbose=False,file=True]', 'run[verbose=True,file=False]',
+         'run[verbose=True,file=True]']
 Z3_TIMEOUT_MS = 30000
 
 
@@ -117,3 +121,88 @@ def build(cx, fe, tier, info, only=None):
     if only in (None, 'add_samples'):
         verify_function(ex, SQ + 'add_samples', c_as, env_as)
         fn_entry(fe, info, SQ + 'add_samples')
+
+    # ---- discard_exploration setter
+    c_ds = SC.discard_setter_contract()
+    reg.add_contract(c_ds)
+
+    def env_ds(ex_, st):
+        return dict(self=M.make_sampler(ex_, st),
+                    discard_exploration=fresh('bool', 'flag'))
+    if only in (None, 'setter'):
+        verify_function(ex, SQ + 'discard_exploration.setter', c_ds, env_ds)
+        fn_entry(fe, info, SQ + 'discard_exploration.setter')
+
+    # ---- run
+    G3 = {}
+    c_run = SC.run_contract(G3)
+    reg.add_contract(c_run)
+
+    for vb in (False, True):
+        for fl in (False, True):
+            unit = 'run[verbose={},file={}]'.format(vb, fl)
+            if only not in (None, unit, 'run'):
+                continue
+
+            def env_run(ex_, st, vb=vb, fl=fl):
+                self_ = M.make_sampler(ex_, st)
+                from pyvc.core import Opaque
+                st.setfield(self_, 'filepath', Opaque('path') if fl else None)
+                return dict(self=self_,
+                            f_live=fresh('real', 'f_live'),
+                            n_shell=fresh('int', 'n_shell'),
+                            n_eff=fresh('real', 'n_eff'),
+                            n_like_max=fresh('real', 'n_like_max'),
+                            discard_exploration=fresh('bool', 'discard_arg'),
+                            timeout=fresh('real', 'timeout'),
+                            verbose=vb)
+            verify_function(ex, SQ + 'run', c_run, env_run,
+                            tag='[verbose={},file={}]'.format(vb, fl))
+            fn_entry(fe, info, SQ + 'run')
+
+    info['assumed'] = [
+        'Sampler.evaluate_likelihood (body verified in C03)',
+        'Sampler.write / write_shell_update: no effect on the sampler object '
+        '(proved in C11)',
+        'Sampler.print_status, n_eff, f_live, log_v_live: read-only (C11)',
+        'UnitCube.compute / NautilusBound.compute: return a new bound object '
+        'implementing the abstract Bound API (C07)',
+        'resume path of Sampler.__init__ restores the written fields (C05)',
+    ]
+    info['assumptions'] = [
+        'C01: the user likelihood either always or never returns blobs',
+        'C01: bound membership C(b, p) does not depend on the sampling state '
+        'of the bound (proved per class in C07)',
+    ]
+    info['inlined'] = sorted(reg.inlined)
+
+
+_replay_cache = {}
+
+
+def replay(r, tier, seed):
+    """Structural counter-models select the concrete search: run the real
+    sampler over the scenario corpus with the C01 monitor at every bound
+    insertion and batch boundary."""
+    from .common import run_runtime
+    if 'rt' not in _replay_cache:
+        _replay_cache['rt'] = run_runtime('check_c01.py', [4, 300])
+    return _replay_cache['rt']
+
+
+def bounded(tier, seed):
+    if tier != 'thorough':
+        return []
+    from .common import run_runtime
+    rt = run_runtime('check_c01.py', [8, 1000])
+    viol = []
+    if rt.get('found'):
+        viol = [dict(id='runtime_monitor', **rt)]
+    return [dict(name='C01/bounded/runtime_monitor',
+                 what='P1-P3 monitored on the real Sampler at every bound '
+                      'insertion and batch boundary (bounded stand-in for the '
+                      'assumed contracts of evaluate_likelihood and of the '
+                      'concrete bound classes)',
+                 bound='8 scenarios x 2 seeds, n_eff=1000',
+                 observed=rt.get('observed'), error=rt.get('error'),
+                 violations=viol)]
